@@ -97,7 +97,11 @@ CFG = {
             '`kt` lines: bit patterns of closest_t, Helix::at(t), Helix::at(tq) from the hooks versus the extracted '
             'PrimFloat model with glibc libm; one case in eight with other tolerance / iteration counts. `relk` lines: '
             'implementation-only brute-force oracle (20001-point grid + golden-section refinement), a test. '
-            'non-trivial = |h| >= EPSILON (Kepler branch reached)',
+            'relkt / relkc / relkv lines: the same oracle where the library reports t through its public API '
+            '(Track::try_from -> t_inner/t_outer against the innermost/outermost cluster point, with clusters given by the '
+            'hook or found by cluster_spacepoints; find_vertices -> t of every track of the primary vertex), applied '
+            'when the fitted helix lies in the quantified domain (centre within +-3 m, radius 0.03-5 m, |pitch| <= 1e2 m). '
+            'non-trivial = |h| >= EPSILON (Kepler branch reached) / a track in the domain was produced',
     'trusted': ['hand-written PrimFloat model of Helix::closest_t / Helix::at (coq/Recon/Helix.v), tied to '
                 'physics/src/reconstruction.rs by the bit-exact differential run',
                 'uom 0.35 operator semantics as read from its source (new = (v + -0.0) * 1.0, get = v / 1.0 - 0.0: identities, signed zero preserved, '
